@@ -23,7 +23,8 @@ fam(2, 2, 3, fill=7, w=2)
 # removal / re-ranking deep inside a heap of same-instant events (the moved last entry may have to rise)
 fam(1, 1, 0, fill=6, tie=1, w=3)
 fam(2, 1, 0, fill=5, tie=1, w=6)
-fam(1, 3, 1, fill=6, tie=1, w=4)
+fam(1, 3, 0, fill=6, tie=1, w=4)
+fam(1, 0, 1, fill=5, tie=1, w=4)
 fam(1, 4, 0, fill=6, tie=1, w=4)
 # clear after the queue has grown, then schedule again: old handles must be gone
 fam(2, 6, 0, fill=7, o1b=5, w=2)
